@@ -244,6 +244,100 @@ impl C11 {
 
 impl Monitor for C11 {
     fn step(&mut self, w: &mut World, s: &Step, rep: &mut Reporter) {
+        self.judge(w, s, rep);
+        if !matches!(s.op, Op::Fm { msg: fm::ExecuteMsg::ManageFarm { .. }, .. }) {
+            if s.idx % self.probe_every == 7 {
+                self.exact_payment_probe(w, s, rep);
+            }
+            if s.idx % self.probe_every == 31 {
+                self.limit_probe(w, s, rep);
+            }
+            if s.idx % (4 * self.probe_every) == 113 {
+                self.drained_farm_probe(w, s, rep);
+            }
+        }
+    }
+}
+
+impl C11 {
+    /// one message executed in a fork and judged like any other
+    fn forked(&mut self, w: &mut World, op: &Op, idx: usize, rep: &mut Reporter) -> bool {
+        let pre = crate::ops::observe(w);
+        let fpre = fobserve(w);
+        let pre_snap = w.snapshot();
+        let out = w.apply(op);
+        let post = crate::ops::observe(w);
+        let fpost = fobserve(w);
+        let st = Step { idx, op, pre_snap: &pre_snap, pre: &pre, out: &out, post: &post, fpre: &fpre, fpost: &fpost };
+        self.judge(w, &st, rep);
+        out.is_ok()
+    }
+
+    /// forked: a farm on an LP token with a single staker is claimed down to exactly zero, then
+    /// closed (by its owner, by the contract owner, or on the way of somebody's creation), then
+    /// farms are created up to the limit - every message judged by the ordinary clauses
+    fn drained_farm_probe(&mut self, w: &mut World, s: &Step, rep: &mut Reporter) {
+        use crate::wfarm::{claim_op, pos_op};
+        use crate::wpool::{create_pool_op, pool_fee, provide_op};
+        use mantra_dex_std::farm_manager::PositionAction;
+        use mantra_dex_std::pool_manager::PoolType;
+        let snap = w.snapshot();
+        self.n += 1;
+        let name = format!("solo{}", self.n);
+        let (staker, creator, other) = (w.users[0].clone(), w.users[1].clone(), w.users[2].clone());
+        let mk = create_pool_op(w, &staker, &["uom", "uusdt"], PoolType::ConstantProduct, pool_fee(0, 30, 0, &[]), Some(&name));
+        let mut ok = w.apply(&mk).is_ok();
+        let pid = format!("o.{name}");
+        ok &= w.apply(&provide_op(&staker, &pid, vec![coin(5_000_000_000, "uom"), coin(1_000_000_000, "uusdt")], None, None, None, None, None)).is_ok();
+        let lp = w.lp_denom(&pid);
+        ok &= self.forked(w, &pos_op(&staker, PositionAction::Create { identifier: None, unlocking_duration: 86_400, receiver: None }, vec![coin(1_000_000, lp.clone())]), s.idx, rep);
+        let cur = fobserve(w).epoch.unwrap_or(0);
+        let fee = fobserve(w).cfg.create_farm_fee.clone();
+        let k = self.rng.gen_range(2..6u64);
+        let rate = self.rng.gen_range(500..5_000u128);
+        let reward = coin(rate * k as u128, "uusdc");
+        // sorts before the identifiers the later creations get
+        let drained_id = format!("a{}", self.n);
+        ok &= self.forked(w, &farm_op(&creator, FarmAction::Create { params: FarmParams { lp_denom: lp.clone(), start_epoch: Some(cur + 1), preliminary_end_epoch: Some(cur + 1 + k), curve: None, farm_asset: reward.clone(), farm_identifier: Some(drained_id.clone()) } }, farm_funds(&reward, &fee)), s.idx, rep);
+        if !ok {
+            w.restore(&snap);
+            return;
+        }
+        self.forked(w, &Op::Advance { secs: (k + 2) * w.cfg.epoch_duration }, s.idx, rep);
+        self.forked(w, &claim_op(&staker, None), s.idx, rep);
+        let f = fobserve(w);
+        let drained = f.farms.get(&format!("m-{drained_id}")).map(|x| x.claimed_amount == x.farm_asset.amount).unwrap_or(false);
+        rep.count("close", if drained { "drained_farm_probe: farm claimed down to exactly zero" } else { "drained_farm_probe: farm not fully claimed" });
+        let owner = w.owner.clone();
+        let later = f.epoch.unwrap_or(cur + k + 2);
+        let next = |n: u32, who: &cosmwasm_std::Addr, later: u64, lp: &str, fee: &cosmwasm_std::Coin| {
+            let r = coin(2_000 + n as u128, "uusdc");
+            farm_op(who, FarmAction::Create { params: FarmParams { lp_denom: lp.to_string(), start_epoch: Some(later + 1), preliminary_end_epoch: Some(later + 4), curve: None, farm_asset: r.clone(), farm_identifier: Some(format!("b{n}")) } }, farm_funds(&r, fee))
+        };
+        let how = (self.n % 3) as usize;
+        match how {
+            0 => {
+                self.forked(w, &farm_op(&creator, FarmAction::Close { farm_identifier: format!("m-{drained_id}") }, vec![]), s.idx, rep);
+            }
+            1 => {
+                self.forked(w, &farm_op(&owner, FarmAction::Close { farm_identifier: format!("m-{drained_id}") }, vec![]), s.idx, rep);
+            }
+            _ => {} // closed on the way of the first creation below
+        }
+        let limit = fobserve(w).cfg.max_concurrent_farms;
+        for j in 0..(limit + 2) {
+            self.n += 1;
+            let n = self.n;
+            self.forked(w, &next(n, &other, later, &lp, &fee), s.idx + j as usize, rep);
+        }
+        let f2 = fobserve(w);
+        if f2.farms.contains_key(&format!("m-{drained_id}")) {
+            rep.failed("close", None, format!("a farm claimed down to zero is still listed after it was closed ({})", ["by its owner", "by the contract owner", "on the way of a creation"][how]), witness(json!({"farm": drained_id})));
+        }
+        w.restore(&snap);
+    }
+
+    fn judge(&mut self, w: &mut World, s: &Step, rep: &mut Reporter) {
         // clause 5 (quiescent): never more unexpired farms per LP token than configured
         let mut per_lp: BTreeMap<String, u32> = BTreeMap::new();
         for f in s.fpost.farms.values() {
@@ -261,15 +355,7 @@ impl Monitor for C11 {
 
         let (sender, action, funds) = match s.op {
             Op::Fm { sender, msg: fm::ExecuteMsg::ManageFarm { action }, funds } => (sender, action, funds),
-            _ => {
-                if s.idx % self.probe_every == 7 {
-                    self.exact_payment_probe(w, s, rep);
-                }
-                if s.idx % self.probe_every == 31 {
-                    self.limit_probe(w, s, rep);
-                }
-                return;
-            }
+            _ => return,
         };
         let cfg = &s.fpre.cfg;
         let cur = s.fpre.epoch;
